@@ -621,7 +621,7 @@ theorem cancelled_applyAct (re : Bool) (s : MState Q) (a : Act) :
 
 theorem cancelled_foldl (re : Bool) : ∀ (acts : List Act) (s : MState Q),
     ∀ e ∈ s.h.cancelled, e ∈ (acts.foldl (applyAct I re) s).h.cancelled
-  | [], _, e, he => he
+  | [], _, _, he => he
   | a :: acts, s, e, he => cancelled_foldl re acts _ e (cancelled_applyAct I re s a e he)
 
 theorem cancelled_processLoop (t : Int) : ∀ (fuel : Nat) (s : MState Q),
@@ -727,5 +727,27 @@ theorem reachable_step {s s' : State} {ops : List Op} (h : Reachable s) (hs : ru
   refine ⟨b, ops0 ++ ops, ?_⟩
   unfold run at hr hs ⊢
   rw [run_append, hr]; exact hs
+
+/-- shared shape of the three cancel operations and of destruction -/
+theorem cancel_transfer {s s' : State} {a : Act} {l : Nat} {p : Ev → Bool} (h : Reachable s)
+    (hs : step s (.act a) = some s')
+    (hl : ∀ hh : Host, Act.legalTop hh a = decide (l ∈ hh.alive))
+    (ha : ∀ ss : SState, l ∈ ss.h.alive → (applyAct ListQ.impl false ss a).q = (cancelBy ListQ.impl ss p).q ∧
+      (applyAct ListQ.impl false ss a).h.log = ss.h.log ∧
+      (applyAct ListQ.impl false ss a).h.cancelled = (cancelBy ListQ.impl ss p).h.cancelled ∧
+      (applyAct ListQ.impl false ss a).h.posted = ss.h.posted) :
+    pending s' = (pending s).filter (fun e => !p e) ∧ s'.h.log = s.h.log ∧
+    s'.h.cancelled = ((pending s).filter p).reverse ++ s.h.cancelled ∧ s'.h.posted = s.h.posted := by
+  obtain ⟨ss, ss', hinv, hrel, hstep, hrel', _⟩ := step_transfer h hs
+  simp only [Machine.step] at hstep
+  split at hstep
+  · rename_i hlt
+    have hal : l ∈ ss.h.alive := by rw [hl] at hlt; simpa using hlt
+    cases hstep
+    obtain ⟨a1, a2, a3, a4⟩ := ha ss hal
+    simp only [pending]
+    rw [hrel'.1.toList, hrel.1.toList, hrel'.2, hrel.2, a1, a2, a3, a4]
+    exact ⟨rfl, rfl, rfl, rfl⟩
+  · cases hstep
 
 end Morfuse.EventQueue
